@@ -1,8 +1,8 @@
 PROP = dict(
     cover_pkgs=["pdu"],
     gen=["layouts"],
-    proof_files=["Properties/C04.v", "Proofs/PduStreamProofs.v", "Proofs/PduAllocProofs.v"],
-    model_files=["Model/Pdu.v", "Model/PduRun.v", "Model/PduAlloc.v", "Model/PduAllocRun.v"],
+    proof_files=["Properties/C04.v", "Proofs/PduStreamProofs.v", "Proofs/PduAllocProofs.v", "Proofs/PduReadHazardProofs.v"],
+    model_files=["Model/Pdu.v", "Model/PduRun.v", "Model/PduAlloc.v", "Model/PduAllocRun.v", "Model/PduReadHazards.v", "Model/PduReadHazardsRun.v"],
     trusted=["Gen/PduLayouts.v (registry dump)", "runtime.MemStats.TotalAlloc deltas for the observed allocation; 10 s watchdog for 'returns'"],
     assumptions=["Go allocator / GC behaviour is runtime (not modelled): the memory clause is tied by measurement against 64*65536 octets per call (a 64 KiB frame of 16380 empty TLVs measures 2.3 MB: one map entry and binary.Read temporaries per 4-octet TLV), hence partial",
                  "io.ReadFull, io.TeeReader, bufio, encoding/binary are Go library code (modelled; tied by the generated cases)"],
